@@ -90,6 +90,44 @@ func genXport(r *rng, seed uint64, focus, arm string) *plan.Plan {
 		p.Knobs.YieldDensity, p.Knobs.StallProb, p.Knobs.YieldMask = []float64{0.1, 0.3, 0.6}[r.intn(3)], 0, 0
 		return p
 	}
+	if focus == "C14" && arm == "stale" && r.p(0.3) {
+		// a burst fills the pool of a one-query-at-a-time transport with n
+		// connections; the server closes them while they idle (or restarts);
+		// a lone call follows.  The retry budget for reused connections is
+		// finite, the number of stale connections is not.
+		kind := []string{"tcp", "tls", "tcp", "udp"}[r.intn(4)]
+		u := upSpec(r, 0, kind)
+		xp.Upstreams = []plan.UpstreamSpec{u}
+		xp.Net.UpLatUs = [2]int64{50, int64(r.rng(100, 3000))}
+		xp.IdleMs = []int{0, 0, 0, 300, 2000}[r.intn(5)]
+		n := r.rng(2, 16)
+		hold := r.i64(4*xp.Net.UpLatUs[1]+2000, 60_000)
+		for i := 0; i < n; i++ {
+			tok := fmt.Sprintf("t%d", i)
+			c := plan.XCall{Idx: i, Up: 0, AtUs: r.i64(1000, 1400), ID: uint16(r.u64()), Token: tok, Type: 1, DeadlineUs: 6_000_000}
+			t := &plan.TokenSpec{Ans: plan.AnswerSpec{NAn: 1, TTLs: []uint32{300}, Shape: "plain"}, Acts: []plan.UpAction{{Kind: "reply", DelayUs: hold}}}
+			if kind == "udp" {
+				// every exchange takes the TCP leg
+				t.Acts = []plan.UpAction{{Kind: "truncate_udp", DelayUs: 100}, {Kind: "reply", DelayUs: hold}}
+			}
+			xp.Tokens[tok] = t
+			xp.Calls = append(xp.Calls, c)
+		}
+		ev := 1400 + hold + 8*xp.Net.UpLatUs[1] + r.i64(10_000, 3_000_000)
+		xp.ServerEvents = []plan.ServerEvent{{Up: 0, AtUs: ev, Kind: []string{"close_idle_conns", "close_idle_conns", "crash_restart"}[r.intn(3)]}}
+		for i := 0; i < r.rng(1, 3); i++ {
+			tok := fmt.Sprintf("t%d", n+i)
+			c := plan.XCall{Idx: n + i, Up: 0, AtUs: ev + r.i64(1_200_000, 6_000_000) + int64(i)*3_000_000, ID: uint16(r.u64()), Token: tok, Type: 1, DeadlineUs: 6_000_000}
+			t := &plan.TokenSpec{Ans: plan.AnswerSpec{NAn: 1, TTLs: []uint32{300}, Shape: "plain"}, Acts: []plan.UpAction{{Kind: "reply", DelayUs: r.i64(50, 5000)}}}
+			if kind == "udp" {
+				t.Acts = []plan.UpAction{{Kind: "truncate_udp", DelayUs: 100}, {Kind: "reply", DelayUs: r.i64(50, 5000)}}
+			}
+			xp.Tokens[tok] = t
+			xp.Calls = append(xp.Calls, c)
+		}
+		xp.HorizonUs = ev + 30_000_000
+		return p
+	}
 	nu := r.rng(1, 2)
 	for i := 0; i < nu; i++ {
 		xp.Upstreams = append(xp.Upstreams, upSpec(r, i, kinds[r.intn(len(kinds))]))
